@@ -178,6 +178,18 @@ impl Property for C08 {
                 }
             }
         }
+        if std::env::var("VERIF_DEBUG_C08").is_ok() {
+            for (i, b) in blobs.iter().enumerate() {
+                if let Ok(d) = decode_data(b) {
+                    println!("blob {}: {}", i, crate::model::show::trace(&d.data));
+                }
+            }
+            for (how, p, bytes) in &results {
+                if let Ok(d) = decode_data(bytes) {
+                    println!("{} {:?}: {}", how, p, crate::model::show::trace(&d.data));
+                }
+            }
+        }
         for (how, p, bytes) in &results {
             let d = match decode_data(bytes) {
                 Ok(d) => d,
@@ -195,7 +207,14 @@ impl Property for C08 {
                             .map(|(key, n)| format!("{}:{} x{} vs x{}", key.0, &key.1[key.1.len().saturating_sub(6)..], n, k.get(key).cloned().unwrap_or(0)))
                             .chain(k.iter().filter(|(key, _)| !k0.contains_key(*key)).map(|(key, n)| format!("{}:{} x0 vs x{}", key.0, &key.1[key.1.len().saturating_sub(6)..], n)))
                             .collect();
-                        let sig = if k1_possible { "C08:knowledge-differs-seq-stream-fold" } else { "C08:knowledge-differs" };
+                        let sig = if k1_possible {
+                            "C08:knowledge-differs-seq-stream-fold"
+                        } else if crate::script::stream_fold_with_last_instruction(&h.script.instr) {
+                            // class K9: results of the last instruction of a stream fold
+                            "C08:knowledge-differs-stream-fold-last-instruction"
+                        } else {
+                            "C08:knowledge-differs"
+                        };
                         return CaseResult::Violation(viol(sig, format!("order {:?} and order {:?} ({}) give different knowledge: {:?}", p0, p, how, diff), &h, 0), rep);
                     }
                     if no_streams {
